@@ -1,0 +1,242 @@
+//go:build verif
+
+package fzf
+
+import (
+	"sort"
+
+	"github.com/junegunn/fzf/src/algo"
+	"github.com/junegunn/fzf/src/util"
+)
+
+// Verification hooks (build tag verif): thin exported wrappers around the
+// unexported ranking / merging functions (result.go, result_*.go, merger.go,
+// matcher.go, chunklist.go). No logic of their own: they only build the
+// arguments and project the answers.
+
+// VerifRes is a Result seen from outside: item index and the four sort keys.
+type VerifRes struct {
+	Index  int32
+	Points [4]uint16
+}
+
+const VerifRankChunkSize = chunkSize
+
+func verifCriteria(cs []int) []criterion {
+	out := make([]criterion, len(cs))
+	for i, c := range cs {
+		out[i] = criterion(c)
+	}
+	return out
+}
+
+// VerifSetCriteria sets the process-wide sort criteria (core.go: sortCriteria = opts.Criteria).
+func VerifSetCriteria(cs []int) { sortCriteria = verifCriteria(cs) }
+
+// VerifParseTiebreak exposes parseTiebreak (nil on error).
+func VerifParseTiebreak(s string) []int {
+	cs, err := parseTiebreak(s)
+	if err != nil {
+		return nil
+	}
+	out := make([]int, len(cs))
+	for i, c := range cs {
+		out[i] = int(c)
+	}
+	return out
+}
+
+func verifRankItem(text string, index int32) *Item {
+	item := &Item{text: util.ToChars([]byte(text))}
+	item.text.Index = index
+	return item
+}
+
+func verifOffsets(offsets [][2]int32) []Offset {
+	offs := make([]Offset, len(offsets))
+	for i, o := range offsets {
+		offs[i] = Offset{o[0], o[1]}
+	}
+	return offs
+}
+
+// VerifBuildResult calls buildResult under the current criteria.
+func VerifBuildResult(text string, index int32, offsets [][2]int32, score int) [4]uint16 {
+	return buildResult(verifRankItem(text, index), verifOffsets(offsets), score).points
+}
+
+func (r VerifRes) result() Result {
+	item := &Item{}
+	item.text.Index = r.Index
+	return Result{item: item, points: r.Points}
+}
+
+func verifResults(rs []VerifRes) []Result {
+	out := make([]Result, len(rs))
+	for i, r := range rs {
+		out[i] = r.result()
+	}
+	return out
+}
+
+// VerifCompareRanks calls the compareRanks variant of this build.
+func VerifCompareRanks(a, b VerifRes, tac bool) bool {
+	return compareRanks(a.result(), b.result(), tac)
+}
+
+// VerifSortResults runs sort.Sort(ByRelevance / ByRelevanceTac) as Matcher.scan does.
+func VerifSortResults(rs []VerifRes, tac bool) []int32 {
+	xs := verifResults(rs)
+	if tac {
+		sort.Sort(ByRelevanceTac(xs))
+	} else {
+		sort.Sort(ByRelevance(xs))
+	}
+	out := make([]int32, len(xs))
+	for i, x := range xs {
+		out[i] = x.item.Index()
+	}
+	return out
+}
+
+// VerifMerger wraps a *Merger.
+type VerifMerger struct {
+	mg     *Merger
+	Counts []int // chunk counts of the snapshot it was built from (VerifScan only)
+}
+
+func VerifNewMerger(lists [][]VerifRes, sorted bool, tac bool) *VerifMerger {
+	ls := make([][]Result, len(lists))
+	for i, l := range lists {
+		ls[i] = verifResults(l)
+	}
+	return &VerifMerger{mg: NewMerger(nil, ls, sorted, tac, revision{}, 0)}
+}
+
+// VerifPassMerger builds chunks with the given counts (items indexed from minIndex on) and calls PassMerger.
+func VerifPassMerger(counts []int, minIndex int32, tac bool) *VerifMerger {
+	chunks := make([]*Chunk, len(counts))
+	index := minIndex
+	for i, n := range counts {
+		chunks[i] = &Chunk{count: n}
+		for k := 0; k < n; k++ {
+			chunks[i].items[k].text.Index = index
+			index++
+		}
+	}
+	return &VerifMerger{mg: PassMerger(&chunks, tac, revision{})}
+}
+
+func (m *VerifMerger) Length() int { return m.mg.Length() }
+
+// Get returns the item index of Merger.Get(idx) (panics propagate).
+func (m *VerifMerger) Get(idx int) int32 { return m.mg.Get(idx).item.Index() }
+
+// GetText returns the text of Merger.Get(idx).
+func (m *VerifMerger) GetText(idx int) string { return m.mg.Get(idx).item.AsString(false) }
+
+// VerifSliceChunks calls Matcher.sliceChunks on n chunks; each chunk is reported by its ordinal.
+func VerifSliceChunks(n int, partitions int) [][]int {
+	chunks := make([]*Chunk, n)
+	ord := map[*Chunk]int{}
+	for i := range chunks {
+		chunks[i] = &Chunk{}
+		ord[chunks[i]] = i
+	}
+	m := &Matcher{partitions: partitions}
+	out := [][]int{}
+	for _, sl := range m.sliceChunks(chunks) {
+		s := []int{}
+		for _, c := range sl {
+			s = append(s, ord[c])
+		}
+		out = append(out, s)
+	}
+	return out
+}
+
+// VerifPartitions is the number of partitions NewMatcher chooses on this machine.
+func VerifPartitions() int {
+	return NewMatcher(NewChunkCache(), nil, false, false, util.NewEventBox(), revision{}).partitions
+}
+
+// VerifRankPattern wraps a *Pattern built like core.go does in filter mode.
+type VerifRankPattern struct{ p *Pattern }
+
+// VerifRankBuildPattern: forward/withPos are derived from the criteria exactly as in core.go Run.
+func VerifRankBuildPattern(query string, criteria []int, fuzzy bool, v1 bool, caseMode int, normalize bool) *VerifRankPattern {
+	forward := true
+	withPos := false
+	cs := verifCriteria(criteria)
+	for idx := len(cs) - 1; idx > 0; idx-- {
+		switch cs[idx] {
+		case byChunk:
+			withPos = true
+		case byEnd:
+			forward = false
+		case byBegin:
+			forward = true
+		case byPathname:
+			withPos = true
+			forward = false
+		}
+	}
+	fn := algo.FuzzyMatchV2
+	if v1 {
+		fn = algo.FuzzyMatchV1
+	}
+	p := BuildPattern(NewChunkCache(), make(map[string]*Pattern), fuzzy, fn, true, Case(caseMode), normalize, forward, withPos,
+		false, []Range{}, Delimiter{}, revision{}, []rune(query), nil)
+	return &VerifRankPattern{p}
+}
+
+func (p *VerifRankPattern) Sortable() bool { return p.p.sortable }
+func (p *VerifRankPattern) IsEmpty() bool  { return p.p.IsEmpty() }
+
+// MatchLine wraps Pattern.MatchItem: matched?, offsets, total score, points (under the current criteria).
+func (p *VerifRankPattern) MatchLine(text string, index int32, slab *util.Slab) (bool, [][2]int32, int, [4]uint16) {
+	item := verifRankItem(text, index)
+	// the score is not kept in Result; recompute it the way MatchItem does
+	res, offsets, _ := p.p.MatchItem(item, p.p.withPos, slab)
+	if res == nil {
+		return false, nil, 0, [4]uint16{}
+	}
+	score := 0
+	if p.p.extended {
+		_, score, _ = p.p.extendedMatch(item, p.p.withPos, slab)
+	} else {
+		_, score, _ = p.p.basicMatch(item, p.p.withPos, slab)
+	}
+	offs := make([][2]int32, len(offsets))
+	for i, o := range offsets {
+		offs[i] = [2]int32{o[0], o[1]}
+	}
+	return true, offs, score, res.points
+}
+
+// VerifScan feeds the lines through a ChunkList, takes Snapshot(tail) and runs Matcher.scan with the given
+// number of partitions (sort flag combined with pattern.sortable as core.go does in filter mode).
+func VerifScan(p *VerifRankPattern, lines []string, sortOn bool, tac bool, partitions int, tail int) *VerifMerger {
+	var itemIndex int32
+	cache := NewChunkCache()
+	cl := NewChunkList(cache, func(item *Item, data []byte) bool {
+		item.text = util.ToChars(data)
+		item.text.Index = itemIndex
+		itemIndex++
+		return true
+	})
+	for _, l := range lines {
+		cl.Push([]byte(l))
+	}
+	snapshot, _, _ := cl.Snapshot(tail)
+	m := NewMatcher(cache, nil, sortOn, tac, util.NewEventBox(), revision{})
+	m.partitions = partitions
+	m.slab = make([]*util.Slab, partitions)
+	m.sort = sortOn && p.p.sortable
+	merger, _ := m.scan(MatchRequest{chunks: snapshot, pattern: p.p})
+	counts := make([]int, len(snapshot))
+	for i, c := range snapshot {
+		counts[i] = c.count
+	}
+	return &VerifMerger{mg: merger, Counts: counts}
+}
